@@ -18,7 +18,7 @@ theorem prefix_of_prefix_append_notMem (l x y : Str) (c : Char) (hc : c ∉ l)
     exact hc (List.mem_of_getElem? h1)
 
 /-- `l` occurs neither in `x` nor in `y`, and cannot straddle them: it does not occur in `x ++ y` -/
-theorem no_occ_append (l x y : Str) (c : Char) (y' : Str) (hy : y = c :: y') (hc : c ∉ l)
+theorem no_occ_appendD (l x y : Str) (c : Char) (y' : Str) (hy : y = c :: y') (hc : c ∉ l)
     (hx : ∀ j, ¬ l <+: x.drop j) (hyl : ∀ j, ¬ l <+: y.drop j) :
     ∀ j, ¬ l <+: (x ++ y).drop j := by
   intro j h
